@@ -764,6 +764,379 @@ def special_state_part(ctx, rng):
     ctx.sample({"special_state_case": cases[0]})
 
 
+# ------------------------------------- IntegratorKrylov validity range
+KR_HEADER = ("From Coq Require Import List ZArith Bool.\nImport ListNotations.\n"
+             "From QV Require Import Model.C11_krylov.\nOpen Scope Z_scope.\n")
+KR_SCALE = 64
+_KSPY = {}
+
+
+def krylov_spy_class():
+    """IntegratorKrylov with recording wrappers around the three numerical
+    kernels (the control flow under test is the unmodified one).  The step
+    bound is rounded down to a multiple of 1/64 so that every float
+    comparison `t > t_0 + max_step` of the run is exact."""
+    if _KSPY:
+        return _KSPY["cls"]
+    from qutip.solver.integrator.krylov import IntegratorKrylov
+    from qutip.solver.sesolve import SESolver
+
+    class KrylovSpy(IntegratorKrylov):
+        method = "krylov_spy"
+        events = []
+
+        def _lanczos_algorithm(self, psi):
+            r = IntegratorKrylov._lanczos_algorithm(self, psi)
+            KrylovSpy.events.append(("lanczos", int(r[0].shape[0])))
+            return r
+
+        def integrate(self, t, copy=True):
+            self._spy_int = True
+            try:
+                return IntegratorKrylov.integrate(self, t, copy)
+            finally:
+                self._spy_int = False
+
+        def _compute_max_step(self, *a, **k):
+            was, self._spy_int = getattr(self, "_spy_int", False), False
+            try:
+                v = IntegratorKrylov._compute_max_step(self, *a, **k)
+            finally:
+                self._spy_int = was
+            v = max(1, int(np.floor(min(v, 1e6) * KR_SCALE))) / float(KR_SCALE)
+            KrylovSpy.events.append(("bound", int(v * KR_SCALE)))
+            return v
+
+        def _compute_psi(self, dt, *a):
+            if getattr(self, "_spy_int", False):     # only the uses made by integrate
+                KrylovSpy.events.append(("psi", dt, getattr(self, "_max_step", None)))
+            return IntegratorKrylov._compute_psi(self, dt, *a)
+
+        @property
+        def options(self):
+            """krylov with recording wrappers"""
+            return self._options
+
+        @options.setter
+        def options(self, new):
+            IntegratorKrylov.options.fset(self, new)
+
+    SESolver.add_integrator(KrylovSpy, "krylov_spy")
+    _KSPY["cls"] = KrylovSpy
+    return KrylovSpy
+
+
+def kr_state(N, code):
+    from qutip import tensor, basis
+    if code == "zero":
+        return 0 * jc_state(N, "g0")
+    if code == "mid":      # invariant subspace of dimension 6
+        return (tensor(basis(2, 1), basis(N, 0)) + tensor(basis(2, 1), basis(N, 1))
+                + 1j * tensor(basis(2, 1), basis(N, 2))).unit()
+    return jc_state(N, code)
+
+
+def kr_bound(b):
+    if b == float("inf"):
+        return "PosInf"
+    if b == float("-inf"):
+        return "NegInf"
+    return ("Fin", int(round(b * KR_SCALE)))
+
+
+def run_krylov_impl(case):
+    from qutip.solver.sesolve import SESolver
+    from qutip.solver.integrator.integrator import IntegratorException
+    Spy = krylov_spy_class()
+    N = case["N"]
+    H, _a = jc_system(N, 1)
+    Spy.events = []
+    np.random.seed(case.get("rseed", 1))
+    solver = SESolver(H, options={"method": "krylov_spy", "krylov_dim": case["kdim"],
+                                  "always_compute_step": case["always"],
+                                  "nsteps": case["nsteps"], "progress_bar": ""})
+    I = solver._integrator
+    kdim = int(I.options["krylov_dim"])
+    prep = list(Spy.events)
+    rand = [(next((e[1] for e in prep if e[0] == "lanczos"), 0),
+             next((e[1] for e in prep if e[0] == "bound"), 1))]
+    ncomp = sum(1 for e in prep if e[0] == "bound")
+    views, per_op, bad = [], [], []
+    for op in case["ops"]:
+        Spy.events = []
+        code = 0
+        try:
+            if op[0] == "set":
+                I.set_state(op[1] / float(KR_SCALE), kr_state(N, op[2]).data)
+            else:
+                I.integrate(op[1] / float(KR_SCALE))
+        except (IntegratorException, AttributeError):
+            code = 1
+        ev = list(Spy.events)
+        ncomp += sum(1 for e in ev if e[0] == "bound")
+        t0 = getattr(I, "_t_0", 0.0)
+        views.append((code, int(round(t0 * KR_SCALE)), kr_bound(I._max_step),
+                      bool(I._is_set), ncomp))
+        per_op.append(ev)
+        # the property itself on the implementation trace
+        lz = [e[1] for e in ev if e[0] == "lanczos"]
+        if lz and I._max_step == float("inf") and not (lz[-1] <= kdim or lz[-1] == 2 * N):
+            bad.append("inf-bound-kept-for-non-breakdown-state: after %r _max_step is +inf "
+                       "although the Lanczos iteration of the current state did not break "
+                       "down (size %d > krylov_dim %d)" % (op, lz[-1], kdim))
+        for e in ev:
+            if e[0] == "psi" and e[2] is not None and not (e[1] <= e[2]):
+                bad.append("propagation-outside-validity-range: _compute_psi(%r) with "
+                           "_max_step=%r" % (e[1], e[2]))
+    # oracle answers per set state: its own (ldim, bound) then those of the hops
+    states, cur = [], None
+    for op, ev in zip(case["ops"], per_op):
+        pairs, pend = [], None
+        for e in ev:
+            if e[0] == "lanczos":
+                if pend is not None:
+                    pairs.append(pend)
+                pend = [e[1], 1]
+            elif e[0] == "bound" and pend is not None:
+                pend[1] = e[1]
+        if pend is not None:
+            pairs.append(pend)
+        if op[0] == "set":
+            cur = list(pairs)
+            states.append(cur)
+        elif cur is not None:
+            cur.extend(pairs)
+    return {"kdim": kdim, "rand": rand, "views": views, "states": states, "bad": bad}
+
+
+def coq_ktrace(case, r):
+    def ost(pairs):
+        return clist(pairs, lambda p: "(%s, %s)" % (cnat(p[0]), cz(p[1])))
+    it = iter(r["states"])
+    ops = []
+    for op in case["ops"]:
+        if op[0] == "set":
+            ops.append("KSet %s %s" % (cz(op[1]), ost(next(it))))
+        else:
+            ops.append("KInt %s" % cz(op[1]))
+    return ("ktrace %s %s %s %s (prepare ost %s %s o_ldim o_bnd %s %s) %s" % (
+        cnat(r["kdim"]), cnat(2 * case["N"]), cbool(case["always"]), cnat(case["nsteps"]),
+        cnat(r["kdim"]), cnat(2 * case["N"]), cbool(case["always"]), ost(r["rand"]),
+        clist(ops)))
+
+
+def gen_krylov_case(rng):
+    codes = ["g0", "e0", "block_eig", "e1", "mid", "generic", "generic", "generic2", "zero"]
+    ops = []
+    if rng.random() < 0.1:
+        ops.append(["int", rng.randint(0, 64)])
+    t = 0
+    for _ in range(rng.choice([1, 2, 3, 4])):
+        t = rng.randint(-64, 64)
+        ops.append(["set", t, rng.choice(codes)])
+        for _ in range(rng.choice([0, 1, 2, 3])):
+            t = t + rng.choice([0, 3, 16, 64, 200, 640, -8])
+            ops.append(["int", t])
+    return {"N": rng.choice([6, 10]), "kdim": rng.choice([0, 0, 3, 4, 6]),
+            "always": rng.random() < 0.3, "nsteps": rng.choice([3, 6, 100, 100]),
+            "rseed": rng.randint(0, 5), "ops": ops}
+
+
+def krylov_part(ctx, rng, only=None):
+    ncases = 60 if ctx.quick else 600
+    cases = [{"N": 10, "kdim": 0, "always": False, "nsteps": 100, "rseed": 1,
+              "ops": [["set", 0, "e0"], ["int", 640], ["set", 0, "generic"], ["int", 1280]]},
+             {"N": 10, "kdim": 4, "always": False, "nsteps": 100, "rseed": 1,
+              "ops": [["set", 0, "generic"], ["int", 320], ["set", 0, "g0"], ["int", 640],
+                      ["set", 64, "mid"], ["int", 640]]}]
+    if only is not None:
+        cases, ncases = [only], 1
+    while len(cases) < ncases:
+        cases.append(gen_krylov_case(rng))
+    runs = [run_krylov_impl(c) for c in cases]
+    try:
+        vals = vlib.coq_eval_values("cases_C11k", KR_HEADER,
+                                    [coq_ktrace(c, r) for c, r in zip(cases, runs)], chunk=200)
+    except RuntimeError as e:
+        ctx.violation("corr:C11:krylov-model-eval", "coqc", "model evaluation failed",
+                      {"log": str(e)}, found_input=False)
+        return
+    agree = 0
+    for c, r, v in zip(cases, runs, vals):
+        model = []
+        for x in vlib.parse_coq_value(v):
+            code, t0, b, isset, ncomp = x
+            model.append((code, t0, b if isinstance(b, str) else tuple(b), isset, ncomp))
+        im = [(a, b, d if isinstance(d, str) else tuple(d), e, f) for a, b, d, e, f in r["views"]]
+        ctx.count_case(("krylov", json.dumps(c)), nontrivial=len(c["ops"]) >= 3)
+        ctx.cov["traces_validated_against_impl"] += 1
+        if r["bad"]:
+            ctx.violation("krylov.IntegratorKrylov:_max_step", r["bad"][0].split(":")[0],
+                          r["bad"][0], {"kind": "krylov", "case": c})
+        if im == model:
+            agree += 1
+            continue
+        first = next((j for j in range(min(len(im), len(model))) if im[j] != model[j]), 0)
+        ctx.violation("corr:krylov.IntegratorKrylov",
+                      r["bad"][0].split(":")[0] if r["bad"] else "model-differs",
+                      "IntegratorKrylov and its model disagree on a call history"
+                      + ("; implementation violates the property: " + r["bad"][0] if r["bad"] else ""),
+                      {"kind": "krylov", "case": c, "first_differing_op": first,
+                       "impl": im[first:first + 1], "model": model[first:first + 1]},
+                      found_input=bool(r["bad"]))
+    ctx.cov["krylov_agreement"] = {"cases": len(cases), "agree": agree}
+    ctx.sample({"krylov_case": cases[1], "impl_views": [list(map(str, v)) for v in runs[1]["views"][:3]]}
+               if len(cases) > 1 else {"krylov_case": cases[0]})
+
+
+# ------------------------------------- zvode window (_back / _front)
+ZV_HEADER = ("From Coq Require Import List ZArith Bool.\nImport ListNotations.\n"
+             "From QV Require Import Model.C11_zvode.\nOpen Scope Z_scope.\n")
+
+
+def run_zvode_impl(case):
+    """Drive a real IntegratorScipyAdams / BDF (real zvode) through set_state /
+    mcstep; returns the observations and the oracle (internal time reached by
+    every step)."""
+    import scipy.linalg
+    from qutip import Qobj, basis
+    from qutip.solver.sesolve import SESolver
+    from qutip.solver.integrator.integrator import IntegratorException
+    I = SESolver(Qobj(RK_H), options={"method": case["method"]})._integrator
+    y0 = basis(3, 0).data
+    views, oracle, bad = [], [], []
+    t0 = None
+    concrete = []
+    for op in case["ops"]:
+        f0 = getattr(I, "_front", 0.0)
+        if op[0] == "rel":
+            # target chosen relative to the window the object holds now
+            b0 = getattr(I, "_back", 0.0)
+            b0 = b0 if isinstance(b0, (int, float)) else 0.0
+            kind, x = op[1], op[2]
+            tt = {"in": b0 + x * (f0 - b0), "front": f0, "beyond": f0 + x,
+                  "behind": b0 - x, "same": float(I._ode_solver.t)}[kind]
+            op = ["mc", float(tt)]
+        concrete.append(op)
+        raised, tout = False, None
+        try:
+            if op[0] == "set":
+                I.set_state(float(op[1]), y0)
+                t0, tout = float(op[1]), float(op[1])
+            else:
+                tout, y = I.mcstep(float(op[1]))
+                if t0 is not None:
+                    exact = scipy.linalg.expm(-1j * RK_H * (tout - t0))[:, :1]
+                    if np.abs(y.to_array() - exact).max() > 1e-4:
+                        bad.append("wrong-state: mcstep(%r) returned time %r with a state that "
+                                   "is not the solution there (validation, tol 1e-4)" % (op[1], tout))
+                    if tout > float(op[1]):
+                        bad.append("overshoot: mcstep(%r) returned the later time %r" % (op[1], tout))
+        except IntegratorException as e:
+            raised = True
+            if "behind the integration limit" not in str(e) and "not initialted" not in str(e):
+                bad.append("zvode-failure: mcstep(%r) raised %s" % (op[1], str(e)[:60]))
+        except AttributeError:
+            raised = True
+        ot = float(I._ode_solver.t)
+        if tout is None:
+            tout = ot
+        front = getattr(I, "_front", 0.0)
+        back = getattr(I, "_back", 0.0)
+        if not isinstance(back, (int, float)):
+            back = 0.0          # Integrator.__init__ default (inf, None): not set yet
+        views.append((raised, tout, bool(I._is_set), back, front, ot))
+        stepped = op[0] == "mc" and front != f0
+        oracle.append(front if stepped else 0.0)
+        if stepped and float(I._ode_solver._integrator.rwork[12]) != front:
+            bad.append("front-is-not-tcur: _front=%r rwork[12]=%r" % (
+                front, float(I._ode_solver._integrator.rwork[12])))
+    case["ops"] = concrete          # resolved targets: what a replay re-runs
+    return views, oracle, bad
+
+
+def gen_zvode_case(rng):
+    ops = []
+    if rng.random() < 0.15:
+        ops.append(["mc", rng.randint(0, 8) / 8.0])
+    for _ in range(rng.choice([1, 2, 3])):
+        t = rng.randint(-8, 8) / 8.0
+        ops.append(["set", t])
+        for _ in range(rng.choice([3, 6, 12])):
+            r = rng.random()
+            if r < 0.3:
+                ops.append(["rel", "beyond", rng.choice([1e-3, 0.02, 0.25, 1.0])])
+            elif r < 0.6:
+                ops.append(["rel", "in", rng.choice([0.0, 0.25, 0.5, 0.9, 1.0])])
+            elif r < 0.7:
+                ops.append(["rel", "front", 0])
+            elif r < 0.8:
+                ops.append(["rel", "same", 0])
+            elif r < 0.9:
+                ops.append(["rel", "behind", rng.choice([1e-4, 0.5])])
+            else:
+                t = t + rng.randint(1, 10) / 16.0
+                ops.append(["mc", t])
+    return {"method": rng.choice(["adams", "bdf"]), "ops": ops}
+
+
+def zvode_part(ctx, rng, only=None):
+    from fractions import Fraction
+    ncases = 80 if ctx.quick else 800
+    cases = [{"method": "adams", "ops": [["set", 0.0], ["mc", 1.0], ["mc", 0.0078125],
+                                         ["mc", 1.0], ["mc", 1.0], ["mc", -1.0], ["mc", 2.0]]}]
+    if only is not None:
+        cases, ncases = [only], 1
+    while len(cases) < ncases:
+        cases.append(gen_zvode_case(rng))
+    runs, exprs, scs = [], [], []
+    for c in cases:
+        views, oracle, bad = run_zvode_impl(c)
+        vals_ = [op[1] for op in c["ops"]] + list(oracle)
+        for v in views:
+            vals_ += [v[1], v[3], v[4], v[5]]
+        den = 1
+        for x in vals_:
+            den = max(den, Fraction(float(x)).denominator)
+        sc = (lambda d: (lambda x: int(Fraction(float(x)) * d)))(den)
+        ops = ["ZSet %s" % cz(sc(op[1])) if op[0] == "set"
+               else "ZMc %s %s" % (cz(sc(op[1])), cz(sc(o)))
+               for op, o in zip(c["ops"], oracle)]
+        exprs.append("z_trace z_new %s" % clist(ops))
+        runs.append((views, oracle, bad))
+        scs.append(sc)
+    try:
+        vals = vlib.coq_eval_values("cases_C11z", ZV_HEADER, exprs, chunk=200)
+    except RuntimeError as e:
+        ctx.violation("corr:C11:zvode-model-eval", "coqc", "model evaluation failed",
+                      {"log": str(e)}, found_input=False)
+        return
+    agree = 0
+    for c, (views, oracle, bad), sc, v in zip(cases, runs, scs, vals):
+        model = [(x[0], x[1], x[2][0], x[2][1], x[2][2], x[2][3])
+                 for x in vlib.parse_coq_value(v)]
+        im = [(a, sc(b), d, sc(e), sc(f), sc(g)) for a, b, d, e, f, g in views]
+        ctx.count_case(("zvode", json.dumps(c)), nontrivial=len(c["ops"]) >= 4)
+        ctx.cov["traces_validated_against_impl"] += 1
+        if bad:
+            ctx.violation("scipy_integrator.IntegratorScipyAdams.mcstep", bad[0].split(":")[0],
+                          bad[0], {"kind": "zvode", "case": c})
+        if im == model:
+            agree += 1
+            continue
+        first = next((j for j in range(min(len(im), len(model))) if im[j] != model[j]), 0)
+        ctx.violation("corr:scipy_integrator.IntegratorScipyAdams",
+                      bad[0].split(":")[0] if bad else "model-differs",
+                      "IntegratorScipyAdams/BDF and the window model disagree on a call history"
+                      + ("; implementation violates the property: " + bad[0] if bad else ""),
+                      {"kind": "zvode", "case": c, "first_differing_op": first,
+                       "impl": [list(map(str, x)) for x in im[first:first + 1]],
+                       "model": [list(map(str, x)) for x in model[first:first + 1]]},
+                      found_input=bool(bad))
+    ctx.cov["zvode_agreement"] = {"cases": len(cases), "agree": agree}
+    ctx.sample({"zvode_case": cases[0], "impl_views": [list(map(str, x)) for x in runs[0][0][:4]]})
+
+
 def stochastic_part(ctx, rng):
     """StochasticSolver.run_from_experiment must leave the solver as it was:
     a later run(seed) equals the run of a fresh solver."""
@@ -1136,6 +1509,8 @@ def run(ctx):
     rk_part(ctx, rng)
     solver_reuse_part(ctx, rng)
     special_state_part(ctx, rng)
+    krylov_part(ctx, rng)
+    zvode_part(ctx, rng)
     stochastic_part(ctx, rng)
     ctx.cov["explanation"] = (
         "Theorems (Props/C11.v) hold for every history of the model; the model is tied "
@@ -1166,6 +1541,10 @@ def replay(ctx, payload):
         r = run_special_case(d["case"])
         if r is not None and r[0] not in ("skip", "within"):
             ctx.violation(r[0], r[1], r[2], d)
+    elif kind == "zvode":
+        zvode_part(ctx, random.Random(0), only=d["case"])
+    elif kind == "krylov":
+        krylov_part(ctx, random.Random(0), only=d["case"])
     elif kind == "stochastic":
         stochastic_part(ctx, random.Random(0))
     elif kind == "rk":
